@@ -800,6 +800,9 @@ fn account(rep: &mut Reporter, acct: &mut Acct, case: &Case, cfg_hash: u64, op_i
             rep.count("m1/unexpected_none");
         }
     }
+    if j.older_entry_served {
+        rep.count("dontcare/older_entry_served");
+    }
     if j.hit {
         rep.count("hits");
         rep.count(if j.neg_hit { "hits_negative" } else { "hits_positive" });
